@@ -674,7 +674,21 @@ Theorem failed_ssn_allocate_keeps_argument_refuted :
     binds s2 = [] /\ sess_sameb s1 s2 = false.
 Proof. exists w_sess, 1%positive, 5%positive, 1%positive. vm_compute. repeat split; reflexivity. Qed.
 
+(* evictor half of "nothing of an undecided transaction reaches the binder or evictor" (caller
+   induced: Session.Evict of a task an OPEN statement already evicted): the evictor receives t2
+   while statement 1 still records its eviction; the Discard then restores t2 to Running in the
+   session (the handler share is charged twice), the evictor keeps it *)
+Theorem undecided_reaches_evictor_refuted :
+  let s1 := run ex_eps ex_sess [OEvict 1 2; OSsnEvict 2] in
+  run_results ex_eps ex_sess [OEvict 1 2; OSsnEvict 2] = [ROk; ROk] /\
+  evicts s1 = [2%positive] /\ map op_task (default [] (stmts s1 !! 1%positive)) = [2%positive] /\
+  let s2 := run ex_eps s1 [ODiscard 1] in
+  okb s2 = true /\ task_view s2 2 = Some (Running, Some 1%positive) /\ evicts s2 = [2%positive] /\
+  sess_sameb ex_sess s2 = false.
+Proof. vm_compute. repeat split; reflexivity. Qed.
+
 Print Assumptions unevict_prefix_refuted.
+Print Assumptions undecided_reaches_evictor_refuted.
 Print Assumptions undecided_reaches_binder_refuted.
 Print Assumptions failed_place_on_node_refuted.
 Print Assumptions failed_ssn_allocate_keeps_argument_refuted.
